@@ -50,6 +50,7 @@ def run(ctx: Ctx) -> None:
     _memo.rule_isinstance_on_class(ctx, ['graphiq/noise/noise_models.py', 'graphiq/backends/compiler_base.py'])
     _memo.rule_zip_truncation(ctx, ['graphiq/noise/noise_models.py', 'graphiq/backends/compiler_base.py'])
     _memo.rule_search_fallthrough(ctx, ['graphiq/noise/noise_models.py', 'graphiq/backends/compiler_base.py'])
+    _memo.rule_zip_pairing(ctx, ['graphiq/noise/noise_models.py', 'graphiq/backends/compiler_base.py'])
     repo = ctx.repo
     effects.rule_backend_cover(ctx)
     effects.rule_noise_off(ctx)
